@@ -56,8 +56,8 @@ def direct_adding_sites(facts, it, field):
     return sorted(set(out))
 
 
-def rm_routines(facts, adt):
-    """Bodies of the type that decide whether to remember a remove: they add to the pending table."""
+def deferred_adders(facts, adt):
+    """Every body of the type that adds to the pending table directly: each of them must take the deferral decision."""
     r = roles(facts, adt)
     out = []
     if not r['deferred']:
@@ -68,6 +68,48 @@ def rm_routines(facts, adt):
         if sites:
             out.append((b, it, sites))
     return out
+
+
+def rm_routines(facts, adt):
+    """The remove routines of the type: the smallest functions that (transitively) both subtract from elements of
+    `entries` and may remember the remove in the pending table (no single call inside them does both).  Each is returned
+    with its private helpers inlined, so that the subtraction and the deferral decision are visible in one body however
+    the routine is split into helpers."""
+    from ..inline import inlined
+    from ..summaries import effects
+    r = roles(facts, adt)
+    out = []
+    if not r['deferred']:
+        return out
+    for b in facts.bodies:
+        if b.derived or b.kind == 'Closure' or b.impl_self != adt or not (b.impl_trait is None or b.impl_trait.startswith('crdts::')):
+            continue
+        effs = [e for e in effects(facts, b) if e.param == 1]
+        adds = any(e.path[:1] == (r['deferred'],) and e.how in ADDING for e in effs)
+        elems = any(e.path[:1] == (r['entries'],) and (e.kind == 'ew' or e.how in ('remove', 'retain')) for e in effs)
+        if not (adds and elems):
+            continue
+        it0 = interp(facts, b)
+        if any(is_rm_call(facts, it0, bb, r) for bb in it0.calls):
+            continue
+        bi = inlined(facts, b, t1=True, t2='s' in facts.view)
+        iti = interp(facts, bi)
+        sites = direct_adding_sites(facts, iti, r['deferred'])
+        if sites:
+            out.append((bi, iti, sites))
+    return out
+
+
+def is_rm_call(facts, it, bb, r):
+    """The call at bb performs a whole remove on self: (transitively) it subtracts from elements of entries AND may
+    remember the remove in the pending table.  A helper that only files the remove, or only strips entries, is not one."""
+    c = it.calls.get(bb)
+    if c is None or not cinfo(c.cid)['local']:
+        return False
+    effs = [e for e in call_effects(facts, it, bb) if e.param == 1]
+    adds = any(e.path[:1] == (r['deferred'],) and e.how in ADDING for e in effs)
+    elems = any(e.path[:1] == (r['entries'],) and (e.kind == 'ew' or e.how in ('remove', 'retain')) for e in effs)
+    return adds and elems
 
 
 def defer_classifier(found, clock_field):
@@ -104,7 +146,7 @@ def def_decide(ctx):
     facts = ctx.facts
     for inst, adt, _, _ in TYPES:
         r = roles(facts, adt)
-        rms = rm_routines(facts, adt)
+        rms = deferred_adders(facts, adt)
         if not rms:
             ctx.fail(inst, None, 'no function of %s ever adds to the pending-remove table %s' % (adt, r['deferred']))
             continue
@@ -357,7 +399,7 @@ def rm_call(ctx):
         good = []
         why = 'the Rm arm never calls the remove routine'
         for bb, c in it.calls.items():
-            if cinfo(c.cid)['uid'] in rm_uids and bb in rc.reachable:
+            if is_rm_call(facts, it, bb, roles(facts, adt)) and bb in rc.reachable:
                 clocks = [a for a in c.args[1:] if param_path(a.val) and param_path(a.val)[0] == 2 and param_path(a.val)[1][-1:] == ('Rm.clock',)]
                 elems = []
                 for a in c.args[1:]:
@@ -510,7 +552,7 @@ def def_take(ctx):
             replays = []
             for bb, c in it.calls.items():
                 info = cinfo(c.cid)
-                if info['local'] and info['uid'] in rm_uids:
+                if info['local'] and is_rm_call(facts, it, bb, r):
                     from_table = False
                     for a in c.args[1:]:
                         for st in subterms(versionless(a.val)):
@@ -552,6 +594,7 @@ def def_take(ctx):
     'C05': 'Map: same for key removes',
     'C08': 'pending removes must travel inside merged states',
     'C03': 'op delivery of the remove would have left the same pending remove here',
+    'C02': 'a merge that loses (or only files) the other side\'s pending removes is order dependent: a+b keeps what b+a removes',
 }, floor=2, inst_filter=ORS_MAP)
 def def_merge(ctx):
     """merge replays every (clock, elements) of other's pending table through self's remove routine."""
@@ -565,7 +608,7 @@ def def_merge(ctx):
         good = []
         for bb, c in it.calls.items():
             info = cinfo(c.cid)
-            if not (info['local'] and info['uid'] in rm_uids):
+            if not (info['local'] and is_rm_call(facts, it, bb, r)):
                 continue
             if not (c.args and param_path(c.args[0].val) and param_path(c.args[0].val)[0] == 1):
                 continue
